@@ -625,7 +625,23 @@ impl<'a> Gen<'a> {
                     let extra = self.expr(sc, Ty::Bool, 1);
                     format!("{cname} := 0;\nWHILE ({cname} < {n}) AND ({extra} OR TRUE) DO\n{cname} := {cname} + 1;\n{body}END_WHILE;")
                 } else {
-                    format!("{cname} := 0;\nREPEAT\n{cname} := {cname} + 1;\n{body}UNTIL {cname} >= {n} END_REPEAT;")
+                    // the exit condition may read array elements at computed indices, call functions, ... (never decides)
+                    let mut n = n;
+                    let extra = match sc.arrays.first().cloned() {
+                        // an array element indexed by the loop counter itself (the counter stays inside the bounds)
+                        Some((an, aty, lo, hi)) if aty != Ty::Bool && lo <= 1 && hi >= 1 && self.r.bool() => {
+                            n = n.min(hi);
+                            format!("({an}[{cname}] = {})", self.literal(aty))
+                        }
+                        Some((an, aty, lo, hi)) if aty != Ty::Bool && self.r.bool() => format!("({an}[LIMIT({lo}, {cname}, {hi})] = {})", self.literal(aty)),
+                        _ => self.expr(sc, Ty::Bool, 1),
+                    };
+                    if self.r.bool() {
+                        // the exit condition starts with the array access
+                        format!("{cname} := 0;\nREPEAT\n{cname} := {cname} + 1;\n{body}UNTIL ({extra} AND FALSE) OR ({cname} >= {n}) END_REPEAT;")
+                    } else {
+                        format!("{cname} := 0;\nREPEAT\n{cname} := {cname} + 1;\n{body}UNTIL ({cname} >= {n}) OR ({extra} AND FALSE) END_REPEAT;")
+                    }
                 }
             }
             18 if sc.can_return => {
